@@ -520,8 +520,19 @@ Definition mon_C05 (sc : scenario) (c0 : cluster) (out : outcome) : bool :=
         || negb (o_prune (sc_opts sc))
         || memn e (prev_of (out_final out))
         || (match find_obj (objs c0) e with Some c => c_keep c | None => false end)
+        (* spared as the same object (UID) as one just applied: it loses the annotation and leaves the
+           inventory (C02); any other skipped object must stay — seed C05f *)
         || existsb (fun it => match it with IEv (EPrune _ e' ASkip) => Nat.eqb e e' | _ => false end) (out_trace out)
-           && negb (memn e (managed (out_final out)))) prune_ids).
+           && negb (memn e (managed (out_final out)))
+           && match find_obj (objs c0) e with
+              | Some c =>
+                  existsb (fun it => match it with
+                                     | IEv (EApply _ j AOk) =>
+                                         match find_obj (objs (out_final out)) j with
+                                         | Some c' => N.eqb (c_uid c') (c_uid c) | None => false end
+                                     | _ => false end) (out_trace out)
+              | None => false
+              end) prune_ids).
 
 (* ---- C03: convergence -------------------------------------------------------- *)
 Definition last_wait (t : list item) (i : id) : option wst :=
